@@ -99,6 +99,7 @@ A6 == Accs(<<"mode", "median", "mean">>)
 CfgWin ==
   {Cfg("stats1", g, FX, a, n, <<>>) : g \in {<<>>, G1}, a \in {A1, A6}, n \in {1, 2, 3}}
   \cup {Cfg("stats1", G1, FXY, A1, 2, <<>>)}
+  \cup {Cfg("stats1", g, FX, a, 0, <<"-s">>) : g \in {<<>>, G1}, a \in {A1, A3, A6}}
 CfgTop ==
   {Cfg("top", g, FX, <<>>, n, o) : g \in {<<>>, G1}, n \in {1, 2, 3}, o \in {<<>>, <<"--min">>}}
   \cup {Cfg("top", g, FX, <<>>, n, o) : g \in {<<>>, G1}, n \in {1, 2}, o \in {<<"-a">>, <<"-a", "--min">>}}
